@@ -11,6 +11,7 @@ import (
 
 	"verif/internal/cat"
 	"verif/internal/cli"
+	"verif/internal/device"
 	"verif/internal/gen"
 	"verif/internal/harness"
 	"verif/internal/hostile"
@@ -362,6 +363,86 @@ func TestExceptionThroughClient(t *testing.T) {
 				if !chkExcClient.EvalFast(t, excClientCase{Kind: kind, Req: r, Code: uint8(code)}) {
 					return
 				}
+			}
+		}
+	}
+}
+
+// agedClientCase: the same on one client that has been in use for a long time: N calls on one Client value; every reply (a normal
+// response or an exception) arrives in one read and must come back as exactly what was sent - the 1st like the 254th and the 9363rd.
+type agedClientCase struct {
+	Kind string `json:"kind"`
+	N    int    `json:"n"`
+	Seed uint64 `json:"seed"`
+	// MaxQty bounds the register counts of the FC3/FC4 requests (small frames age a client differently from large ones)
+	MaxQty int `json:"max_qty"`
+}
+
+func runAgedClient(c agedClientCase) harness.Result {
+	f := cli.FramingOf(c.Kind)
+	sess, err := cli.NewSession(c.Kind, 300, false)
+	if err != nil {
+		return harness.Fail("harness: %v", err)
+	}
+	defer sess.Close()
+	dev := device.New(c.Seed)
+	s := c.Seed
+	for i := 0; i < c.N; i++ {
+		v := harness.SplitMix64(&s)
+		r := spec.Req{FC: 3 + uint8(v&1), Unit: uint8(v >> 8), Tx: uint16(v >> 16), Addr: uint16(v >> 32), Qty: 1 + uint16((v>>48)%uint64(c.MaxQty))}
+		if int(r.Addr)+int(r.Qty) > 65536 {
+			r.Addr = uint16(65536 - int(r.Qty))
+		}
+		reqBytes := spec.EncodeRequest(f, r)
+		code := uint8(0)
+		var frame []byte
+		if i%5 == 4 {
+			code = 1 + uint8(v>>4)%11
+			frame = spec.EncodeResponse(f, spec.Resp{FC: r.FC, Unit: r.Unit, Tx: r.Tx, IsException: true, Code: code})
+		} else {
+			frame = dev.Answer(f, reqBytes)
+		}
+		o := sess.Call(r, frame, []xport.Event{{Kind: "data", N: len(frame)}, {Kind: "ioerr"}})
+		where := fmt.Sprintf("call #%d on one long-lived %s client", i+1, c.Kind)
+		if o.Panic != nil {
+			return harness.Fail("%s: panic: %v", where, o.Panic)
+		}
+		if o.Hung {
+			return harness.Fail("%s did not return", where)
+		}
+		if code != 0 {
+			var et *packet.ErrorResponseTCP
+			var er *packet.ErrorResponseRTU
+			switch {
+			case f == spec.TCP && errors.As(o.Err, &et) && et.Code == code && et.UnitID == r.Unit && et.Function == r.FC && et.TransactionID == r.Tx:
+			case f == spec.RTU && errors.As(o.Err, &er) && er.Code == code && er.UnitID == r.Unit && er.Function == r.FC:
+			default:
+				return harness.Fail("%s: exception reply %x: got response %v, error %T %v", where, frame, o.Resp, o.Err, o.Err)
+			}
+			continue
+		}
+		if o.Err != nil || cat.IsNilValue(o.Resp) {
+			return harness.Fail("%s: well-formed reply %x (%d bytes) to request %x: error %T %v", where, frame, len(frame), reqBytes, o.Err, o.Err)
+		}
+		if !bytes.Equal(o.Resp.Bytes(), frame) {
+			return harness.Fail("%s: reply %x was decoded to a response that encodes to %x", where, frame, o.Resp.Bytes())
+		}
+	}
+	return harness.Result{NonTrivial: c.N >= 300, Labels: []string{"kind:" + c.Kind, fmt.Sprintf("calls-on-one-client:%d", c.N)}, Weight: int64(c.N)}
+}
+
+var chkAgedClient = harness.Define("responses-through-long-lived-client",
+	func(t *rapid.T) agedClientCase {
+		return agedClientCase{Kind: rapid.SampledFrom([]string{cli.TCP, cli.RTUNet}).Draw(t, "kind"), N: rapid.SampledFrom([]int{300, 2500, 7000, 12000}).Draw(t, "n"),
+			Seed: rapid.Uint64().Draw(t, "seed"), MaxQty: rapid.SampledFrom([]int{1, 10, 125}).Draw(t, "max_qty")}
+	}, runAgedClient)
+
+func TestLongLivedClient(t *testing.T) {
+	chkAgedClient.Rapid(t, harness.Pick(6, 60))
+	if harness.Thorough() {
+		for i, kind := range []string{cli.TCP, cli.RTUNet} {
+			if harness.Mine(i + 1) {
+				chkAgedClient.Eval(t, agedClientCase{Kind: kind, N: 140000, Seed: harness.Seed() + uint64(i), MaxQty: 3})
 			}
 		}
 	}
